@@ -324,7 +324,7 @@ func checkSufficient(text string, ast *ref.Node) (msg string, applicable bool) {
 			junk[parts[len(parts)-1]+"_"] = "JUNK"
 		}
 	}
-	run := func(restrict bool) obs.EvalOut {
+	mk := func(restrict bool) map[string]interface{} {
 		data := map[string]interface{}{}
 		for k, v := range built {
 			if !restrict || keep[k] {
@@ -338,13 +338,35 @@ func checkSufficient(text string, ast *ref.Node) (msg string, applicable bool) {
 				}
 			}
 		}
+		return data
+	}
+	run := func(restrict bool) obs.EvalOut {
 		r := formula.NewRunner()
-		r.SetThis(data)
+		r.SetThis(mk(restrict))
 		return obs.Eval(r, context.Background(), p.Src.Expression)
 	}
 	full, restricted := run(false), run(true)
 	if full.Panic != nil || restricted.Panic != nil {
 		return "", false // C03's concern
+	}
+	// the host's usual loop: one runner for all formulas and records - first the full record, then the
+	// restricted one; what the formula reads comes from the record it is given, whatever the runner did before
+	if c10Shared == nil {
+		c10Shared = formula.NewRunner()
+		c10Shared.SetThis(map[string]interface{}{"i": 1})
+		if q := obs.Parse([]byte("$x = 'aged', $y = 'aged', $z = 'aged', $loc2 = 'aged', $X = 'aged', $__v = 'aged', i + 1")); q.OK() {
+			obs.Eval(c10Shared, context.Background(), q.Src.Expression)
+		}
+	}
+	for _, restrict := range []bool{false, true} {
+		c10Shared.SetThis(mk(restrict))
+		got, want := obs.Eval(c10Shared, context.Background(), p.Src.Expression), full
+		if restrict {
+			want = restricted
+		}
+		if got.Panic == nil && ((got.Err != nil) != (want.Err != nil) || (got.Err == nil && !reflect.DeepEqual(normResult(got.Val), normResult(want.Val)))) {
+			return fmt.Sprintf("%q over the map restricted=%v: a new runner gives %s, a runner that evaluated other formulas over other records before gives %s", text, restrict, want, got), true
+		}
 	}
 	if (full.Err != nil) != (restricted.Err != nil) {
 		return fmt.Sprintf("%q: with the full data map -> %s, with the map restricted to %v -> %s", text, full, sortedKeys(keep), restricted), true
@@ -354,6 +376,8 @@ func checkSufficient(text string, ast *ref.Node) (msg string, applicable bool) {
 	}
 	return "", true
 }
+
+var c10Shared *formula.Runner
 
 type fieldCase struct {
 	Tree *ref.Node `json:"tree"`
